@@ -1,4 +1,6 @@
 """C12 Tables are rectangular, aligned, width-bounded and account for every record."""
+import collections
+import types
 import vf
 vf.use_repo()
 from ak.ppobj import PPTable  # noqa: E402
@@ -37,7 +39,9 @@ FLOORS = {"quick": {"distinct_nontrivial": 600, "tables_checked": 5000, "tables_
 LEVEL_TEXT = ("Runtime exploration with an independent layout model: each generated table is rendered by the real "
               "PPTable (no_color) and every line is re-derived from the records, the column descriptions and the "
               "limits by the harness.")
-LEVEL_NOTE = "one enum type, four fields; padding side free; colours are covered by C10"
+LEVEL_NOTE = ("one enum type, four fields; padding side free; colours are covered by C10; records are tuples with a "
+              "fields list, namedtuples, dicts / tuples addressed by value paths in the column descriptions, or "
+              "objects with attributes")
 TECHNIQUE = "runtime monitoring: independent layout model over generated tables"
 
 
@@ -53,7 +57,11 @@ def gen_case(rng, big=False):
     titles = {f: rng.choice(T.TITLES_POOL[f]) for f in T.FIELDS}
     later = rng.choice([None, 'derive', 'grow', 'interleave', 'edit-bounds'])
     centered = rng.choice([None, None, 'a', 'b', 'd'])
-    return dict(centered=centered, recs=recs, fmt=fmt, cols=cols, limits=limits, lim_arg=lim_arg, header=header, footer=footer,
+    # how the records are made and how the table learns where the values are
+    shape = rng.choice([None] * 9 + ['namedtuple', 'dict-paths', 'pos-paths', 'attr'])
+    if shape:
+        later = None
+    return dict(centered=centered, shape=shape, recs=recs, fmt=fmt, cols=cols, limits=limits, lim_arg=lim_arg, header=header, footer=footer,
                 titles=titles, later=later, grow_by=rng.choice([1, 1, -1]),
                 new_bounds=[(rng.choice([0, 1, 2, 3]), rng.choice([3, 4, 6, 9, 30])) for _ in range(3)],
                 extra_recs=T.gen_records(rng, (1, 3, 6)))
@@ -64,10 +72,38 @@ def rng_free_len(c):
     return 3 + (len(c['fmt']) * 7 + len(c['recs'])) % 16
 
 
+_REC = collections.namedtuple("Rec", T.FIELDS)
+
+
+def shaped(c):
+    """-> (records, fmt, fields) the way the chosen record shape wants them"""
+    shape = c.get('shape')
+    recs, fmt = c['recs'], c['fmt']
+    if not shape:
+        return recs, fmt, T.FIELDS
+    if shape == 'namedtuple':
+        return [_REC(*r) for r in recs], fmt, None
+    if shape == 'attr':
+        return [types.SimpleNamespace(**dict(zip(T.FIELDS, r))) for r in recs], fmt, None
+    cols, sep, rest = fmt.partition(";")
+    out = []
+    for col in cols.split(","):
+        name_part, colon, width = col.partition(":")
+        field = name_part.split("/")[0].rstrip("!")
+        path = "[%s]" % field if shape == 'dict-paths' else str(T.FIELDS.index(field))
+        out.append(name_part + "<-" + path + colon + width)
+    if shape == 'dict-paths':
+        recs = [dict(zip(T.FIELDS, r)) for r in recs]
+    return recs, ",".join(out) + sep + rest, None
+
+
 def judge(ctx, c, case):
     ctx.evaluated()
     try:
-        t = PPTable(c['recs'], fields=T.FIELDS, fmt=c['fmt'], limits=c['lim_arg'], header=c['header'],
+        recs_in, fmt_in, fields_in = shaped(c)
+        if c.get('shape'):
+            ctx.count("tables_with_other_record_shapes")
+        t = PPTable(recs_in, fields=fields_in, fmt=fmt_in, limits=c['lim_arg'], header=c['header'],
                     footer=c['footer'], fields_types=T.mk_field_types(c.get('centered')),
                     fields_titles=dict(c['titles']))
         lines = T.render(t).split("\n")
